@@ -346,12 +346,24 @@ def hx(b):
 # values: ('n',) ('i', n) ('f', n) ('c', n) ('s', bytes) ('k0',) ('k', bytes) ('vec', bytes12) ('l', lbl)
 #         ('ca', holder, refcount, [(self, value)...]) ('car', holder);   item ('v', self, value)
 
+LINKS = ("l", "ref", "con", "scon", "car", "aref", "pref")
+
+
 def vtoks(v, selfs=True):
     k = v[0]
     if k in ("n", "k0"):
         return [k]
-    if k in ("i", "f", "c", "l", "car"):
+    if k in ("i", "f", "c") + LINKS:
         return [k, str(v[1])]
+    if k == "ptr":
+        return ["ptr", str(v[1]), str(len(v[2]))] + [str(x) for x in v[2]]
+    if k == "arr":
+        # ('arr', holder, refcount, tl, th, tli, perm, [(kself, key, vself, value)...]) entries in insertion order
+        perm = v[6] if len(v[6]) == len(v[7]) else [0] * len(v[7])      # not yet known: filled in by `canon`
+        out = ["arr"] + [str(x) for x in v[1:6]] + [str(len(v[7]))] + ([str(x) for x in perm] if selfs else [])
+        for ks, kv, vs, vv in v[7]:
+            out += ([str(ks)] if selfs else []) + vtoks(kv, selfs) + ([str(vs)] if selfs else []) + vtoks(vv, selfs)
+        return out
     if k in ("s", "k", "vec"):
         return [k, hx(v[1])]
     if k == "ca":
@@ -366,8 +378,29 @@ def parse_value(t, i, selfs):
     k = t[i]
     if k in ("n", "k0"):
         return (k,), i + 1
-    if k in ("i", "f", "c", "l", "car"):
+    if k in ("i", "f", "c") + LINKS:
         return (k, int(t[i + 1])), i + 2
+    if k == "ptr":
+        n = int(t[i + 2])
+        return ("ptr", int(t[i + 1]), [int(x) for x in t[i + 3:i + 3 + n]]), i + 3 + n
+    if k == "arr":
+        n = int(t[i + 6])
+        j = i + 7
+        perm = []
+        if selfs:
+            perm = [int(x) for x in t[j:j + n]]
+            j += n
+        es = []
+        for _ in range(n):
+            ks = vs = 0
+            if selfs:
+                ks = int(t[j]); j += 1
+            kv, j = parse_value(t, j, selfs)
+            if selfs:
+                vs = int(t[j]); j += 1
+            vv, j = parse_value(t, j, selfs)
+            es.append((ks, kv, vs, vv))
+        return ("arr",) + tuple(int(x) for x in t[i + 1:i + 6]) + (perm, es), j
     if k in ("s", "k", "vec"):
         return (k, b"" if t[i + 1] == "-" else bytes.fromhex(t[i + 1])), i + 2
     if k == "ca":
@@ -393,6 +426,12 @@ def strip_selfs(x):
         return ("v", x[1], strip_selfs(x[2]))
     if x[0] == "ca":
         return ("ca", x[1], x[2], [(0, strip_selfs(e)) for _, e in x[3]])
+    if x[0] == "arr":
+        # as a read-back shows it: no addresses, no walk order, entries sorted by the text of the key
+        es = sorted([(0, strip_selfs(kv), 0, strip_selfs(vv)) for _, kv, _, vv in x[7]], key=lambda e: " ".join(vtoks(e[1], False)))
+        return ("arr",) + tuple(x[1:6]) + ([], es)
+    if x[0] == "ptr":
+        return ("ptr", x[1], list(x[2]))
     if x[0] in OBJ:
         return (x[0], x[1], x[2], strip_selfs(x[3]))
     return x
@@ -447,9 +486,29 @@ def count_items(items):
     return sum(1 + (count_items(it[3]) if it[0] in OBJ else 0) for it in items)
 
 
+def vregistered(v, acc):
+    """variables register themselves (ArchiveObjectPosition(this)), holders and cells too"""
+    if v[0] == "ca":
+        acc.add(v[1])
+        for s_, e in v[3]:
+            acc.add(s_)
+            vregistered(e, acc)
+    elif v[0] == "arr":
+        acc.add(v[1])
+        for ks, kv, vs, vv in v[7]:
+            acc.update((ks, vs))
+            vregistered(kv, acc)
+            vregistered(vv, acc)
+    elif v[0] == "ptr":
+        acc.add(v[1])
+
+
 def registered(items, acc=None):
     acc = set() if acc is None else acc
     for it in items:
+        if it[0] == "v":
+            acc.add(it[1])
+            vregistered(it[2], acc)
         if it[0] == "pos":
             acc.add(it[1])
         elif it[0] in OBJ:
@@ -459,11 +518,17 @@ def registered(items, acc=None):
 
 
 def vtargets(v, acc):
-    if v[0] == "l" and v[1]:
+    if v[0] in LINKS and v[1]:
         acc.add(v[1])
     elif v[0] == "ca":
         for _, e in v[3]:
             vtargets(e, acc)
+    elif v[0] == "arr":
+        for _, kv, _, vv in v[7]:
+            vtargets(kv, acc)
+            vtargets(vv, acc)
+    elif v[0] == "ptr":
+        acc.update(x for x in v[2] if x)
 
 
 def targets(items, acc=None):
@@ -536,8 +601,66 @@ class VGen:
         self.rng = rng
         self.next = 100000
         self.holders = []
+        self.aholders = []
         self.refs = {}
         self.ptr_targets = ptr_targets
+        self.allvars = []          # labels a Ref may name: top-level variables and const-array elements
+        self.cells = {}            # pointer cell -> the top-level variables that hold it, in item order
+
+    def scalar(self):
+        """a value that allocates no holder (what a hash array holds)"""
+        rng = self.rng
+        r = rng.random()
+        if r < 0.3:
+            return ["i", rng.choice(BOUND[8]) if rng.random() < 0.5 else rng.getrandbits(64)]
+        if r < 0.45:
+            return ["s", gen_bytes(rng, 20)]
+        if r < 0.55:
+            return ["k", bytes(rng.choice(TEXT) for _ in range(rng.randint(1, 8)))]
+        if r < 0.65:
+            return ["l", self.ptr_targets()]
+        if r < 0.75:
+            return ["ref", None]
+        if r < 0.8:
+            return ["n"]
+        if r < 0.88 and self.holders:
+            h = rng.choice(self.holders)
+            self.refs[h] = self.refs.get(h, 0) + 1
+            return ["car", h]
+        if r < 0.94 and self.aholders:
+            h = rng.choice(self.aholders)
+            self.refs[h] = self.refs.get(h, 0) + 1
+            return ["aref", h]
+        return ["f", rng.getrandbits(32)]
+
+    def array(self):
+        rng = self.rng
+        h = self.fresh()
+        n = rng.choice([0, 1, 1, 2, 3, 5, 8, 13, 30])
+        keys, es = set(), []
+        if n == 1 and rng.random() < 0.3:
+            cand = [["l", self.ptr_targets()]]      # a listener key hashes by address: only alone in its table
+        else:
+            cand = []
+            for _ in range(n):
+                r = rng.random()
+                if r < 0.5:
+                    k = ["i", rng.choice([0, 1, 2, 3, 7, 2 ** 32, 2 ** 63, 2 ** 64 - 1]) if rng.random() < 0.4 else rng.getrandbits(rng.choice([4, 16, 64]))]
+                elif r < 0.8:
+                    k = ["s", bytes(rng.choice(TEXT) for _ in range(rng.randint(0, 6)))]
+                else:
+                    k = ["k", bytes(rng.choice(TEXT) for _ in range(rng.randint(1, 6)))]
+                cand.append(k)
+        for k in cand:
+            # a String and a ConstString key of the same text are the same key for the table
+            ident = ("t", k[1]) if k[0] in ("s", "k") else (k[0], k[1])
+            if ident in keys:
+                continue
+            keys.add(ident)
+            es.append((self.fresh(), k, self.fresh(), self.scalar()))
+        v = ["arr", h, None, 0, 0, 0, [], es]
+        self.aholders.append(h)
+        return v
 
     def fresh(self):
         self.next += 1
@@ -560,22 +683,38 @@ class VGen:
             return ["k0"]
         if r < 0.64:
             return ["k", bytes(rng.choice(TEXT) for _ in range(rng.randint(1, 12)))]
-        if r < 0.70:
+        if r < 0.68:
             return ["vec", bytes(rng.getrandbits(8) for _ in range(12))]
-        if r < 0.80:
+        if r < 0.74:
             t = self.ptr_targets()
             return ["l", t]
-        if r < 0.88 and self.holders:
+        if r < 0.78:
+            return ["ref", None]
+        if r < 0.80:
+            return [rng.choice(["con", "scon"]), self.ptr_targets()]
+        if r < 0.85 and self.holders:
             h = rng.choice(self.holders)
             self.refs[h] = self.refs.get(h, 0) + 1
             return ["car", h]
+        if r < 0.88 and self.aholders:
+            h = rng.choice(self.aholders)
+            self.refs[h] = self.refs.get(h, 0) + 1
+            return ["aref", h]
+        if r < 0.93:
+            return self.array()
+        if depth == 0 and r < 0.96:
+            # a pointer cell, shared with the other top-level variables of its group (resolved in freeze)
+            g = rng.randint(1, 3)
+            return ["pcell", g]
         if depth < 3:
             h = self.fresh()
             n = rng.choice([0, 1, 2, 3, 5])
             es = []
             v = ["ca", h, None, es]
             for _ in range(n):
-                es.append((self.fresh(), self.value(depth + 1)))
+                s_ = self.fresh()
+                self.allvars.append(s_)
+                es.append((s_, self.value(depth + 1)))
             self.holders.append(h)      # shareable only once completely archived (pre-order: after its elements)
             return v
         return ["i", 7]
@@ -583,6 +722,12 @@ class VGen:
     def freeze(self, v):
         if v[0] == "ca":
             return ("ca", v[1], self.refs.get(v[1], 0), [(s_, self.freeze(e)) for s_, e in v[3]])
+        if v[0] == "arr":
+            return ("arr", v[1], self.refs.get(v[1], 0), 0, 0, 0, [],
+                    [(ks, self.freeze(kv), vs, self.freeze(vv)) for ks, kv, vs, vv in v[7]])
+        if v[0] == "ref":
+            # any archived variable: earlier, later, itself, an element of a const array; rarely null
+            return ("ref", self.rng.choice(self.allvars) if self.allvars and self.rng.random() < 0.95 else 0)
         return tuple(v)
 
 
@@ -619,7 +764,12 @@ def gen_case(rng, nitems, nobj=None, maxstr=300, dangling=0.04, values=0.2, mode
     def plain_item(top=False):
         r = rng.random()
         if top and r < values:      # the model has script values at the top level of a sequence only
-            return ["v", vg.fresh(), vg.value()]
+            s_ = vg.fresh()
+            vg.allvars.append(s_)
+            val = vg.value()
+            if val[0] == "pcell":
+                vg.cells.setdefault(val[1], []).append(s_)
+            return ["v", s_, val]
         if r < 0.45:
             return gen_prim(rng)
         if r < 0.6:
@@ -664,10 +814,20 @@ def gen_case(rng, nitems, nobj=None, maxstr=300, dangling=0.04, values=0.2, mode
     while pend_extra:
         items.append(("pos", pend_extra.pop()))
 
+    cell_label = {g: vg.fresh() for g in vg.cells}
+    cell_done = set()
+
     def freeze(its):
         out = []
         for it in its:
-            if it[0] == "v":
+            if it[0] == "v" and it[2][0] == "pcell":
+                g = it[2][1]
+                if g in cell_done:
+                    out.append(("v", it[1], ("pref", cell_label[g])))
+                else:
+                    cell_done.add(g)
+                    out.append(("v", it[1], ("ptr", cell_label[g], list(vg.cells[g]))))
+            elif it[0] == "v":
                 out.append(("v", it[1], vg.freeze(it[2])))
             elif it[0] in OBJ:
                 out.append((it[0], it[1], it[2], freeze(it[3])))
@@ -675,6 +835,74 @@ def gen_case(rng, nitems, nobj=None, maxstr=300, dangling=0.04, values=0.2, mode
                 out.append(it)
         return out
     return freeze(items)
+
+
+def _arrays_of_value(v, acc):
+    if v[0] == "arr":
+        for _, kv, _, vv in v[7]:
+            _arrays_of_value(kv, acc)
+            _arrays_of_value(vv, acc)
+        acc.append(v)
+    elif v[0] == "ca":
+        for _, e in v[3]:
+            _arrays_of_value(e, acc)
+
+
+def arrays_of(items, acc=None):
+    """hash arrays in the order the harness builds them"""
+    acc = [] if acc is None else acc
+    for it in items:
+        if it[0] == "v":
+            _arrays_of_value(it[2], acc)
+        elif it[0] in OBJ:
+            arrays_of(it[3], acc)
+    return acc
+
+
+def _patch_value(v, fix):
+    if v[0] == "arr":
+        es = [(ks, _patch_value(kv, fix), vs, _patch_value(vv, fix)) for ks, kv, vs, vv in v[7]]
+        tl, th, tli, perm = fix.pop(0)
+        return ("arr", v[1], v[2], tl, th, tli, perm, es)
+    if v[0] == "ca":
+        return ("ca", v[1], v[2], [(s_, _patch_value(e, fix)) for s_, e in v[3]])
+    return v
+
+
+def _patch_items(items, fix):
+    out = []
+    for it in items:
+        if it[0] == "v":
+            out.append(("v", it[1], _patch_value(it[2], fix)))
+        elif it[0] in OBJ:
+            out.append((it[0], it[1], it[2], _patch_items(it[3], fix)))
+        else:
+            out.append(it)
+    return out
+
+
+def canon(exe, reg, cases):
+    """cases: list of (info, items).  The header numbers of a hash array and the order in which the writer walks it are
+    facts of the real table (hash function, growth policy: C17/C18's business): one extra pass of the harness (`canon`
+    lines) reports them and they are written into the line both sides then get; the harness re-checks them when it
+    builds the arrays for the `arc` line (`canon-mismatch` otherwise)."""
+    idx = [i for i, (info, items) in enumerate(cases) if arrays_of(items)]
+    if not idx:
+        return cases
+    lines = [reg] + ["canon " + arc_line(*cases[i]).split(" ", 1)[1] for i in idx]
+    out, crash, info_ = run_impl(exe, lines, timeout=300)
+    if crash is not None or len(out) != len(lines):
+        raise CheckError("harness canon pass failed: %s" % crash)
+    res = list(cases)
+    for i, ans in zip(idx, out[1:]):
+        fix = []
+        for part in ans.split(" ; "):
+            t = [int(x) for x in part.split(" ")]
+            fix.append((t[0], t[1], t[2], t[3:]))
+        if len(fix) != len(arrays_of(cases[i][1])):
+            raise CheckError("harness canon pass: %d arrays announced for %d" % (len(fix), len(arrays_of(cases[i][1]))))
+        res[i] = (cases[i][0], _patch_items(cases[i][1], fix))
+    return res
 
 
 def gen_info(rng):
